@@ -126,10 +126,13 @@ impl StreamId {
     /// Fast integer parsing
     #[inline]
     fn parse_u64_fast(bytes: &[u8]) -> Option<u64> {
+        // An empty part ("5-", "-5") is not a number
+        if bytes.is_empty() { return None; }
         let mut result = 0u64;
         for &b in bytes {
             if b < b'0' || b > b'9' { return None; }
-            result = result.wrapping_mul(10).wrapping_add((b - b'0') as u64);
+            // A value that does not fit in 64 bits is rejected, not wrapped around
+            result = result.checked_mul(10)?.checked_add((b - b'0') as u64)?;
         }
         Some(result)
     }
@@ -757,5 +760,19 @@ mod tests {
         }
         
         assert_eq!(stream.len(), 10);
+    }
+    
+    #[test]
+    fn test_stream_id_from_string() {
+        assert_eq!(StreamId::from_string("5-3"), Some(StreamId::new(5, 3)));
+        assert_eq!(StreamId::from_string("18446744073709551615-18446744073709551615"),
+                   Some(StreamId::new(u64::MAX, u64::MAX)));
+        
+        // Numbers that do not fit in 64 bits and empty parts are not IDs
+        assert_eq!(StreamId::from_string("18446744073709551617-1"), None);
+        assert_eq!(StreamId::from_string("1-18446744073709551616"), None);
+        assert_eq!(StreamId::from_string("5-"), None);
+        assert_eq!(StreamId::from_string("-5"), None);
+        assert_eq!(StreamId::from_string("-"), None);
     }
 }
